@@ -18,7 +18,13 @@ LENGTHS = [1 << k for k in range(5, 13)]                                  # 2^5 
 NABS = [1, 2, 3, 4]
 CAPS = [0, 1, 2, 3, 4, 5]                                                 # number_bit_pairs 0-5 (0 = unlimited)
 MAX_REPORT = 25
-ITEM_BUDGET_S = 240
+# linear_hash_smiles lists, per hash, the SMILES of ONE arbitrary chain of the fragment (chains[0]); which chain is first depends on set
+# iteration order, hence on atom numbering (e.g. 'n' vs 'N' for Nc1ccc2ccccc2n1).  The property text names fingerprints, hash sets and
+# fragment dictionaries; the keys of linear_hash_smiles are enforced, the representative strings are only counted (run.notes) unless
+# the coordinator switches this on.
+ENFORCE_HASH_SMILES_VALUES = False
+ITEM_BUDGET_S = 120   # watchdog per molecule (normal: < 3 s); after a first timeout in a worker: 10 s, after five: skip
+_TIMEOUTS = [0]
 
 
 class _Watchdog(BaseException):
@@ -186,6 +192,11 @@ def check_molecule(m, r, full_caps=True, n_variants=2):
             fail('fingerprint-array', name + '()', 'default call: length is not 1024 or ones not at the default bit set')
 
     # numbering and insertion order ---------------------------------------------------------------------------------------------------------
+    smiles_values_differ = False
+    try:
+        ref_smiles = {k: sorted(x) for k, x in m.linear_hash_smiles(1, 4, 4).items()}
+    except Exception:
+        ref_smiles = None
     for v in range(n_variants):
         if v % 2 == 0:
             c, mp = D.renumber(m, r, offset=r.choice((0, 0, 5, 1000)))
@@ -210,6 +221,19 @@ def check_molecule(m, r, full_caps=True, n_variants=2):
             nev += 1
             if c.morgan_hash_set(lo, hi) != {x for lv in levels[lo - 1:hi] for x in lv.values()}:
                 fail('renumbering:morgan_hash_set', _params('morgan_hash_set', lo, hi), 'hash set changes under ' + next(iter(how)), how)
+        if ref_smiles is not None:
+            try:
+                got = {k: sorted(x) for k, x in c.linear_hash_smiles(1, 4, 4).items()}
+                if set(got) != set(ref_smiles):
+                    fail('renumbering:linear_hash_smiles-keys', 'linear_hash_smiles(1,4,4)', 'hash keys change under ' + next(iter(how)), how)
+                elif got != ref_smiles:      # observation only, see ENFORCE_HASH_SMILES_VALUES
+                    smiles_values_differ = True
+                    if ENFORCE_HASH_SMILES_VALUES:
+                        d = [(k, ref_smiles[k], got[k]) for k in got if got[k] != ref_smiles[k]][:3]
+                        fail('renumbering:linear_hash_smiles-values', 'linear_hash_smiles(1,4,4)',
+                             f'representative fragment SMILES of a hash change under {next(iter(how))}: {d}', how)
+            except Exception as e:
+                fail('linear_hash_smiles-raises', 'linear_hash_smiles(1,4,4)', f'{type(e).__name__}: {e} after ' + next(iter(how)), how)
         for call in r.sample(bit_calls, 10):
             nev += 1
             if call[0] == 'l':
@@ -223,7 +247,7 @@ def check_molecule(m, r, full_caps=True, n_variants=2):
             if not same:
                 fail('renumbering:fingerprint', _params('bit_set/fingerprint', *call[1:]), 'bit set / array changes under ' + next(iter(how)), how)
     info = {'atoms': len(adj), 'simple_paths<=6': sum(len(v) for v in paths.values()), 'max_fragment_multiplicity': max_mult,
-            'distinct_identifiers_radius6': len(set(levels[-1].values()))}
+            'distinct_identifiers_radius6': len(set(levels[-1].values())), 'hash_smiles_values_differ': smiles_values_differ}
     return fails, nev, info
 
 
@@ -252,8 +276,10 @@ def _work(item):
 
     def on_alarm(sig, frame):
         raise _Watchdog()
+    if _TIMEOUTS[0] >= 5:
+        return 0, [], [], [], {'timeout': [str(item[1])[:200] + ' (skipped after five timeouts in this worker)']}
     old = signal.signal(signal.SIGALRM, on_alarm)
-    signal.alarm(ITEM_BUDGET_S)
+    signal.alarm(ITEM_BUDGET_S if not _TIMEOUTS[0] else 10)
     try:
         try:
             name, m, wit = _build_item(item)
@@ -266,6 +292,7 @@ def _work(item):
         keys = [name] if any(True for _ in m.bonds()) else []
         return nev, keys, [{'molecule': name, **info}], viols, {}
     except _Watchdog:
+        _TIMEOUTS[0] += 1
         return 0, [], [], [], {'timeout': [str(item[1])[:200]]}
     finally:
         signal.alarm(0)
@@ -314,6 +341,7 @@ def bounded(run):
     res = pmap(_work, [items[i] for i in order], chunksize=2)
     reported, suppressed = Counter(), Counter()
     skipped, timeouts = [], []
+    obs = {'molecules': 0, 'differ': 0, 'examples': []}
     shown = Counter()
     for i, (n, keys, samples, viols, extra) in zip(order, res):
         kind = items[i][0]
@@ -331,8 +359,18 @@ def bounded(run):
                 continue
             if run.violation(key, what, witness=wit, native=nat) == 'new':
                 reported[c] += 1
+        for sm in samples:
+            obs['molecules'] += 1
+            obs['differ'] += bool(sm.get('hash_smiles_values_differ'))
+            if sm.get('hash_smiles_values_differ') and len(obs['examples']) < 3:
+                obs['examples'].append(sm['molecule'])
         skipped += extra.get('skipped', [])
         timeouts += extra.get('timeout', [])
+    run.notes['observation_linear_hash_smiles_values'] = {
+        'enforced': ENFORCE_HASH_SMILES_VALUES, 'molecules': obs['molecules'], 'representative_smiles_change_under_renumbering': obs['differ'],
+        'examples': obs['examples'], 'why': 'linear_hash_smiles keeps the SMILES of chains[0] only; the first chain of a fragment depends on set order'}
+    print(f"C17 bounded: observation (not enforced): linear_hash_smiles representative SMILES change under renumbering for "
+          f"{obs['differ']} of {obs['molecules']} molecules", flush=True)
     if suppressed:
         run.notes['violations_not_listed'] = {'why': f'more than {MAX_REPORT} new violations of the same contract', 'per_contract': dict(suppressed)}
         print(f'C17 bounded: further violations not listed (same contracts): {dict(suppressed)}', flush=True)
